@@ -811,3 +811,43 @@ def flag_facts(funcnode, use_stmt, facts):
             continue
         out += list(GuardWalker._atoms(d.value, pol))
     return out
+
+
+def prop_models(facts, extra_leaves=()):
+    """Truth assignments of the atomic conditions that are consistent with
+    the facts [(expr, polarity)].  Conditions are taken apart at and / or /
+    not; everything else is an atom identified by its text.  Returns
+    (leaves, [assignment dict]) or None when there are too many atoms."""
+    from .model import norm
+    leaves = []
+
+    def collect(e):
+        if isinstance(e, ast.BoolOp):
+            for v in e.values:
+                collect(v)
+        elif isinstance(e, ast.UnaryOp) and isinstance(e.op, ast.Not):
+            collect(e.operand)
+        else:
+            k = norm(e, 300)
+            if k not in leaves:
+                leaves.append(k)
+    for t, _p in facts:
+        collect(t)
+    for e in extra_leaves:
+        collect(e)
+    if len(leaves) > 12:
+        return None
+
+    def ev(e, asg):
+        if isinstance(e, ast.BoolOp):
+            vals = [ev(v, asg) for v in e.values]
+            return all(vals) if isinstance(e.op, ast.And) else any(vals)
+        if isinstance(e, ast.UnaryOp) and isinstance(e.op, ast.Not):
+            return not ev(e.operand, asg)
+        return asg[norm(e, 300)]
+    models = []
+    for bits in range(1 << len(leaves)):
+        asg = {k: bool(bits >> i & 1) for i, k in enumerate(leaves)}
+        if all(ev(t, asg) == bool(p) for t, p in facts):
+            models.append(asg)
+    return leaves, models
